@@ -9,9 +9,9 @@ Every group element is its discrete logarithm modulo the scalar-field modulus `r
 Scalars and points are `Nat`s, all arithmetic is explicit `% r`. The functions follow the Go code statement by
 statement (the two loops `eval` and `dividePolyByXminusA` are written with the Go indices on `List.getD/List.set`).
 
-One deliberate deviation (the property demands it, see `commitQuotient`): for a polynomial of length 1 the quotient is
-the empty slice; the Go `Open`/`BatchOpenSinglePoint` hand it to `Commit`, which answers ErrInvalidPolynomialSize;
-the model commits the empty quotient to the identity (H = O), as completeness for constants requires.
+The quotient of a polynomial of length 1 is the empty slice: since /repo fix 1aad452 `Open` / `BatchOpenSinglePoint` skip `Commit` for it
+(`if len(h) > 0`) and leave `H` = the point at infinity; `commitQuotient` is that branch. Props/C11_open_gen_<curve>.lean proves that the Go
+text of `eval`, `dividePolyByXminusA`, `Commit`, `Open`, `BatchOpenSinglePoint` (re-translated on every run) equals the functions below.
 -/
 namespace GV.KZG
 
@@ -90,8 +90,7 @@ def commit (r : Nat) (p : List Nat) (pk : List Nat) : Except Err Nat :=
   if p.length = 0 ∨ p.length > pk.length then .error .polySize
   else .ok (msm r (pk.take p.length) p)
 
-/-- commitment of the quotient. PROPERTY-SIDE DEVIATION: the empty quotient (constant polynomial) is committed
-to the identity; kzg.go calls `Commit(h, pk)` which returns ErrInvalidPolynomialSize for `len(h) = 0`. -/
+/-- commitment of the quotient: the empty quotient (constant polynomial) is the identity, kzg.go skips `Commit` for it (`if len(h) > 0`) -/
 def commitQuotient (r : Nat) (h : List Nat) (pk : List Nat) : Except Err Nat :=
   if h.length = 0 then .ok 0 else commit r h pk
 
